@@ -173,7 +173,7 @@ func (ctx *Ctx) GenVC(fc *FuncContract) (res *FuncResult) {
 			reach := And(append([]Term{exit.reach}, penv.assumes...)...)
 			penv.assumes = nil
 			vc.addObl(&Obligation{Name: "ensures:" + en.Label + sfx, Kind: "ensures", Reach: reach, Cond: t, Taint: exit.taint,
-				Pos: ctx.prog.Fset.Position(fn.Pos()), Descr: en.Src})
+				Pos: ctx.prog.Fset.Position(fn.Pos()), Descr: en.Src, Spec: en.E})
 		}
 		if fc.Appends != nil {
 			ctx.appendsObligations(vc, fr, fc, exit, penv, sfx)
@@ -457,6 +457,20 @@ func (vc *VC) Query(o *Obligation, forCVC5 bool, withModel bool) string {
 	if !o.IsCover {
 		fmt.Fprintf(&sb, "(assert (not %s))\n", o.Cond.S)
 	}
+	// watched terms that read a lambda-defined heap are not accepted by get-value ("must not
+	// contain quantifiers"): they are named by fresh constants
+	var watchNames []string
+	if withModel {
+		for i, w := range o.Watch {
+			if strings.Contains(w.T.S, "select") && w.T.Sort != "" {
+				n := fmt.Sprintf("gw!%d", i)
+				fmt.Fprintf(&sb, "(declare-const %s %s)\n(assert (= %s %s))\n", n, w.T.Sort, n, w.T.S)
+				watchNames = append(watchNames, n)
+			} else {
+				watchNames = append(watchNames, w.T.S)
+			}
+		}
+	}
 	sb.WriteString("(check-sat)\n")
 	if withModel {
 		var ws []string
@@ -469,9 +483,7 @@ func (vc *VC) Query(o *Obligation, forCVC5 bool, withModel bool) string {
 				// a few leading elements (bytes / ints)
 			}
 		}
-		for _, w := range o.Watch {
-			ws = append(ws, w.T.S)
-		}
+		ws = append(ws, watchNames...)
 		if len(ws) > 0 {
 			fmt.Fprintf(&sb, "(get-value (%s))\n", strings.Join(ws, " "))
 		}
@@ -509,10 +521,26 @@ func (ctx *Ctx) appendsObligations(vc *VC, fr *Frame, fc *FuncContract, exit *St
 		}
 		when = w
 	}
+	as := fc.Appends
+	execSpec := map[string]string{
+		"length": fmt.Sprintf("(%s) ==> len(result0) == len(%s) + (%s)", as.WhenSrc, as.Param, as.NSrc),
+		"prefix": fmt.Sprintf("(%s) ==> (forall j int :: 0 <= j && j < old(len(%s)) ==> result0[j] == old(%s[j]))", as.WhenSrc, as.Param, as.Param),
+	}
+	if fr.fn.Signature.Results().Len() == 1 {
+		for k, v := range execSpec {
+			execSpec[k] = strings.ReplaceAll(v, "result0", "result")
+		}
+	}
 	add := func(name string, cond Term, descr string) {
 		cond = Implies(when, cond)
-		vc.addObl(&Obligation{Name: "appends:" + name + sfx, Kind: "ensures", Reach: exit.reach, Cond: cond, Taint: exit.taint, Pos: pos,
-			Descr: "appends " + fc.Appends.Src + ": " + descr})
+		ob := &Obligation{Name: "appends:" + name + sfx, Kind: "ensures", Reach: exit.reach, Cond: cond, Taint: exit.taint, Pos: pos,
+			Descr: "appends " + fc.Appends.Src + ": " + descr}
+		if src, ok := execSpec[name]; ok {
+			if e, err := ParseSpec(src); err == nil {
+				ob.Spec = e
+			}
+		}
+		vc.addObl(ob)
 	}
 	add("count", Ge(n, IntLit(0)), "the count is not negative")
 	add("length", Eq(SLen(r), Add(ln, n)), "the result is n elements longer")
